@@ -7,7 +7,7 @@ real phosg code on every input and compares with the values stored here; it neve
 expected value itself.
 
 Case file (little endian):  "C10C" u32 ncases, then per case
-  u32 case_id, u8 kind (0 exhaustive-length, 1 random-large, 2 extended-length), u8 fill, u8 allsplits, u8 nsplits,
+  u32 case_id, u8 kind (0 exhaustive-length, 1 random-large, 2 extended-length, 3 concurrency set, 4 length ladder), u8 fill, u8 allsplits, u8 nsplits,
   u32 len, data[len], md5[16], sha1[20], sha256[32], u32 crc32, u32 fnv1a32, u64 fnv1a64,
   u8 seeded_flags (bit0: crc, bit1: fnv), u32 seed32, u64 seed64, u32 crc32(data, seed32), u32 fnv1a32(data, seed32),
   u64 fnv1a64(data, seed64)    -- expected values for an arbitrary NON-default running value,
@@ -127,7 +127,23 @@ def plan(tier, seed):
             d = r.randint(-9, 1)
         n = min(64 * k + d, MIB)
         cases.append((1, 3, n, 0, r.getrandbits(64)))
+    # length ladder: sizes next to every power of two and every 3*2^k up to (and just beyond) 1 MiB
+    for n in ladder_sizes(tier):
+        cases.append((4, 3, n, 0, r.getrandbits(64)))
     return cases
+
+
+def ladder_sizes(tier):
+    quick = tier == "quick"
+    sizes = set()
+    for k in range(9, 21):
+        w = 1 if (quick and k > 16) else 2
+        sizes.update(2 ** k + d for d in range(-w, w + 1))
+    for k in range(8, 19):
+        w = 1 if (quick and 3 * 2 ** k > 65536) else 2
+        sizes.update(3 * 2 ** k + d for d in range(-w, w + 1))
+    sizes.update((MIB + 1, MIB + 2))
+    return sorted(sizes)
 
 
 def _splits(r, n):
@@ -149,7 +165,7 @@ def _gen_shard(job):
     for cid, (kind, fill, n, allsplits, rseed) in enumerate(cases):
         if cid % nshards != shard:
             continue
-        if kind == 1:
+        if kind in (1, 4):
             rr = random.Random(rseed)
             data = rr.randbytes(n)
             splits = _splits(rr, n)
